@@ -64,7 +64,11 @@ func (o goArrayObject) setValue(index int64, value Value) bool {
 	}
 	reflectValue, err := value.toReflectValue(reflect.Indirect(o.value).Type().Elem())
 	if err != nil {
-		panic(err)
+		panicConversionError(err)
+	}
+	if !reflectValue.IsValid() {
+		// undefined/null for an interface{} element
+		reflectValue = reflect.Zero(reflect.Indirect(o.value).Type().Elem())
 	}
 	indexValue.Set(reflectValue)
 	return true
